@@ -15,7 +15,7 @@ Record cfg := mkCfg {
   c_no_open : bool; c_no_opendir : bool; c_writeback : bool; c_killpriv : bool; c_xattr : bool;
   c_cache : N;             (* 0 Never, 1 Metadata, 2 Auto, 3 Always *)
   c_direct_io : bool;      (* allow_direct_io (default true): otherwise O_DIRECT is stripped from open and F_SETFL flags *)
-  c_ifh : bool             (* inode_file_handles: inodes are reopened with open_by_handle_at, always as root: no effect on the calls modelled *)
+  c_ifh : bool             (* inode_file_handles: inodes are reopened with open_by_handle_at, as root except in create() on an existing name (see open_inode) *)
 }.
 
 Record idata := mkIdata { id_host : N; id_mode : N; id_ref : N }.
@@ -144,6 +144,9 @@ Definition open_inode (cf : cfg) (s : pstate) (inode flags : N) : res (N * N) * 
   | None => (Err EBADF, s)
   | Some d =>
       if negb (is_safe_inode (id_mode d)) then (Err EBADF, s)
+      (* with inode_file_handles the inode is reopened by open_by_handle_at, which needs CAP_DAC_READ_SEARCH: it fails
+         with EPERM whenever the thread runs with a non-root caller's credentials (create() on an existing name) *)
+      else if c_ifh cf && negb (euid (p_creds s) =? 0) then (Err EPERM, s)
       else
         let nf := strip_direct cf (get_writeback_open_flags cf flags) in
         let of := clear (clear (N.lor nf O_CLOEXEC) O_NOFOLLOW) O_CREAT in
